@@ -62,6 +62,9 @@ func genAutoEntry(r *vh.Rng, cc proj.CropCal) proj.AutoEntry {
 	a.OrgTime = []string{"H", "S"}[r.Intn(2)]
 	a.OrgDoy = r.Range(1, 20)
 	a.IrrLow, a.IrrDep, a.IrrMax = r.Range(30, 80), r.Range(30, 90), r.Range(10, 50)
+	if r.Chance(0.15) {
+		a.IrrMax = []int{0, 0, 1, 3}[r.Intn(4)] // a daily maximum of 0 mm: irrigation switched off for the crop (shipped row AA)
+	}
 	return a
 }
 
